@@ -250,7 +250,16 @@ def _h_subview(I, op):
     dyn = [I.get(o) for o in op.sizes]
     I.get(op.source)
     offs = [I.get(o) for o in op.offsets]
-    sizes = _sizes_of(I, static, dyn)
+    sizes = list(_sizes_of(I, static, dyn))
+    # a rank-reducing view drops unit dimensions of its source (MLIR: the dropped dimensions have static size 1)
+    drop = len(sizes) - len(op.result.type.get_shape())
+    kept = []
+    for sz, st_ in zip(sizes, static):
+        if drop > 0 and st_ == 1:
+            drop -= 1
+            continue
+        kept.append(sz)
+    sizes = kept
     # pure op: not an event; its sizes/offsets are observable through the users of the view
     I.set(op.result, Opaque("memref", sizes=sizes, offsets=tuple(offs)))
 
@@ -277,9 +286,34 @@ MEMREF_HANDLERS = {"memref.alloc": _h_alloc, "memref.dim": _h_dim, "memref.subvi
                    "affine.min": _h_affine_min, "affine.apply": _h_affine_apply}
 
 
+RANK_REDUCING = """builtin.module {{
+  func.func @f(%A : memref<?x?x?xi32>) {{
+    %c0 = arith.constant 0 : index
+    %c1 = arith.constant 1 : index
+    %c2 = arith.constant 2 : index
+    %c4 = arith.constant 4 : index
+    %c8 = arith.constant 8 : index
+    scf.for %i0 = %c0 to %c8 step %c4 {{
+      %s1 = memref.dim %A, %c1 : memref<?x?x?xi32>
+      %s2 = memref.dim %A, %c2 : memref<?x?x?xi32>
+      %sv = memref.subview %A[%i0, 0, 0] [1, %s1, %s2] [1, 1, 1] : memref<?x?x?xi32> to memref<?x?xi32, strided<[?, ?], offset: ?>>
+      %ci = arith.constant {dimidx} : index
+      %d = memref.dim %sv, %ci : memref<?x?xi32, strided<[?, ?], offset: ?>>
+      %buf = memref.alloc(%d) : memref<?xi32>
+      "test.op"(%buf, %i0) {{tag = "use"}} : (memref<?xi32>, index) -> ()
+    }}
+    func.return
+  }}
+}}
+"""
+
+
 def alloc_src(case):
     """programs: (nested) loops with alloc / dim / subview whose sizes depend or not on loop variables."""
     kind, depth, rank, dynmask, dimidx, size_src = case
+    if kind == "rank_reducing":
+        # a view that drops the unit dimension of its source: its dimension k is the source's dimension k + 1
+        return RANK_REDUCING.format(dimidx=dimidx)
     # source memref argument %A : memref<?x?x..xi32> ; subview sizes: static 4 or dynamic from size_src
     ranks = "x".join("?" for _ in range(rank))
     idxs = [f"%i{d}" for d in range(depth)]
@@ -380,7 +414,7 @@ def case_alloc(case):
         return ok, d
 
     def sig(f, v):
-        return f"reuse_memref_allocs:{f['name'].split(':')[0]}|size_from_{case[5]}" + ("|dim_also_used_elsewhere" if case[0] == "alloc_and_use_of_dim" else "")
+        return f"reuse_memref_allocs:{f['name'].split(':')[0]}|size_from_{case[5]}" + ("|dim_also_used_elsewhere" if case[0] == "alloc_and_use_of_dim" else "|rank_reducing_view" if case[0] == "rank_reducing" else "")
 
     return run_case(fn, replay, signature=sig, sample=dict(case=str(case)), key=str(case), max_paths=200)
 
@@ -450,6 +484,8 @@ def run(chk):
                             cases.append((kind, depth, rank, dynmask, dimidx, size_src))
     if quick and len(cases) > 260:
         cases = rnd.sample(cases, 260)
+    for dimidx in (0, 1):
+        cases.append(("rank_reducing", 1, 3, (False, True, True), dimidx, "dim"))
     # a dim that sizes an allocation and has another user as well (fixed, whatever the seed)
     for depth in (1, 2):
         for rank, dynmask in ((1, (True,)), (2, (True, False)), (2, (True, True))):
